@@ -3,6 +3,8 @@
 package main
 
 import (
+	"path/filepath"
+	"os"
 	"bytes"
 	"context"
 	"fmt"
@@ -19,22 +21,64 @@ import (
 func init() { runners["C15"] = runC15 }
 
 // C15: proposals extend the finalized head along EC; committees derive from finality
+// rosterVerifier records the key list the committee's aggregate is pre-computed over
+type rosterVerifier struct {
+	gpbft.Verifier
+	last []gpbft.PubKey
+}
+
+func (v *rosterVerifier) Aggregate(keys []gpbft.PubKey) (gpbft.Aggregate, error) {
+	v.last = append([]gpbft.PubKey{}, keys...)
+	return v.Verifier.Aggregate(keys)
+}
+
 func runC15(o *out, r *rng, thorough bool, rp string) {
-	o.Rule = "random EC block trees (null rounds, forks before / at / after the base, heads on the main chain, on a fork, behind the base, chains longer than 128), certificate histories stored in a real certstore whose chains are segments of the finalized line, manifests with head-lookback 0..3, proposal length 1..200, committee look-back 1..3, initial instance 0 or 7, clock positions around the freshness bound; the real gpbftInputs (accessor over the model EC backend) is asked for the proposal and committee of every instance the store allows; results are compared with the Proposal.v model inside Coq and with the clauses of the property evaluated on the tree; non-trivial = the head is not the base and a certificate exists"
-	ctx := context.Background()
 	n := 80
 	if thorough {
 		n = 600
 	}
+	runInputs(o, r, n, "c15")
+	o.finish("From F3 Require Import Proposal ProposalRun.")
+}
+
+// runInputsRoster: the same executions of the real gpbftInputs, for the sake of ONE monitor (C03): the aggregate a
+// participant signs and verifies with is computed over the SAME key list as the one certificate validation uses (all
+// entries of the power table, in table order, members without effective power included)
+func runInputsRoster(o *out, r *rng, n int, prefix string) {
+	scratch := newOut("scratch", o.Seed, o.Tier, filepath.Join(o.dir, "inputs-scratch"))
+	runInputs(scratch, r, n, prefix)
+	for _, v := range scratch.Violations {
+		if strings.HasPrefix(v.Signature, prefix+"-aggregate-roster") {
+			o.Violations = append(o.Violations, v)
+		}
+	}
+	o.Dist["committees-roster-checked"] += scratch.Dist["committees-roster-checked"]
+	o.Dist["committees-with-powerless-members"] += scratch.Dist["committees-with-powerless-members"]
+	os.RemoveAll(filepath.Join(o.dir, "inputs-scratch"))
+}
+
+func runInputs(o *out, r *rng, n int, prefix string) {
+	o.Rule = "random EC block trees (null rounds, forks before / at / after the base, heads on the main chain, on a fork, behind the base, chains longer than 128), certificate histories stored in a real certstore whose chains are segments of the finalized line, manifests with head-lookback 0..3, proposal length 1..200, committee look-back 1..3, initial instance 0 or 7, clock positions around the freshness bound; the real gpbftInputs (accessor over the model EC backend) is asked for the proposal and committee of every instance the store allows; results are compared with the Proposal.v model inside Coq and with the clauses of the property evaluated on the tree; non-trivial = the head is not the base and a certificate exists"
+	ctx := context.Background()
 	t := newTok()
 	for hi := 0; hi < n; hi++ {
 		g := newCertGen(r, 3+r.intn(4), 0)
+		if hi%3 == 1 {
+			// a whale and a member whose power rounds down to nothing: part of the table, of the key list, never a signer
+			g.table = sortEntries(append(append(gpbft.PowerEntries{}, g.table...), g.newEntry(1<<44), g.newEntry(1)))
+		}
+		rv := &rosterVerifier{Verifier: g.backend}
 		mec := newModelEC()
 		t0 := time.Unix(1_700_000_000, 0)
 		// tables attached to EC tipsets (sorted entries so that the committee's table CID equals EC's)
 		var ecTables []gpbft.PowerEntries
 		for k := 0; k < 3; k++ {
-			ecTables = append(ecTables, sortEntries(genTable(r, 2+r.intn(4), 500+100*k)))
+			tb := genTable(r, 2+r.intn(4), 500+100*k)
+			if hi%3 == 1 {
+				tb = append(tb, gpbft.PowerEntry{ID: gpbft.ActorID(900 + k), Power: gpbft.NewStoragePower(1 << 44), PubKey: []byte(fmt.Sprintf("pubkey::%08x", 9000+k))},
+					gpbft.PowerEntry{ID: gpbft.ActorID(950 + k), Power: gpbft.NewStoragePower(1), PubKey: []byte(fmt.Sprintf("pubkey::%08x", 9500+k))})
+			}
+			ecTables = append(ecTables, sortEntries(tb))
 		}
 		// main line
 		long := r.chance(8)
@@ -162,7 +206,7 @@ func runC15(o *out, r *rng, thorough bool, rp string) {
 			now = head.ts.Add(30 * time.Second) // exactly one period
 		}
 		clk.Set(now)
-		in := f3.VerifNewInputs(m, cs, mec, g.backend, clk)
+		in := f3.VerifNewInputs(m, cs, mec, rv, clk)
 
 		// ---------- model terms ----------
 		keyTok := func(k string) int64 {
@@ -205,7 +249,30 @@ func runC15(o *out, r *rng, thorough bool, rp string) {
 		}
 		for inst := m.InitialInstance; inst <= g.next+1; inst++ {
 			// committee
+			rv.last = nil
 			cm, cerr := in.GetCommittee(ctx, inst)
+			if cerr == nil && cm.PowerTable != nil {
+				full := cm.PowerTable.Entries.PublicKeys()
+				same := len(full) == len(rv.last)
+				for k := 0; same && k < len(full); k++ {
+					same = bytes.Equal(full[k], rv.last[k])
+				}
+				zero := 0
+				for _, sp := range cm.PowerTable.ScaledPower {
+					if sp == 0 {
+						zero++
+					}
+				}
+				if zero > 0 {
+					o.Dist["committees-with-powerless-members"]++
+				}
+				o.Dist["committees-roster-checked"]++
+				if !same {
+					o.violate("a decision's aggregate signature verifies on any node that holds the same power table: the committee's aggregate is computed over the table's full key list, as certificate validation does",
+						prefix+"-aggregate-roster", map[string]any{"instance": inst, "table_entries": len(full), "powerless_members": zero},
+						fmt.Sprintf("the committee's aggregate was pre-computed over %d keys, the power table has %d (BLS aggregation coefficients depend on the whole list)", len(rv.last), len(full)))
+				}
+			}
 			exp := "None"
 			if cerr == nil {
 				exp = fmt.Sprintf("(Some (%d, %d))", tblTok(cm.PowerTable.Entries), t.of("beacon", cm.Beacon))
@@ -328,7 +395,6 @@ func runC15(o *out, r *rng, thorough bool, rp string) {
 			o.sample(desc)
 		}
 	}
-	o.finish("From F3 Require Import Proposal ProposalRun.")
 }
 
 func sortStrings(s []string) {
